@@ -11,4 +11,7 @@ const shamtMask = 63
 
 type RVUInt = uint64
 
+// 寄存器对应的有符号整数
+type RVInt = int64
+
 var _ device.CPU = (*CPU)(nil)
